@@ -100,7 +100,7 @@ fn c11_case(s: &[u8], l: &mut Local) {
     }
 }
 
-/// The 8-kind tile menu of C11(a).
+/// The 10-kind tile menu of C11(a).
 fn tile_menu() -> Vec<Vec<u8>> {
     vec![
         vec![0x80, 203, 0, 0],                                                 // BYE ok
@@ -111,8 +111,11 @@ fn tile_menu() -> Vec<Vec<u8>> {
         vec![0x00, 203, 0, 0],                                                 // version 0
         vec![0x81, 202, 0, 2, 1, 2, 3, 4, 0x00, 0x07, 0x00, 0x00],             // SDES with a non-zero byte in the fill
         vec![0xA0, 203, 0, 1, 0, 0, 0, 0],                                     // BYE with P and zero count
+        vec![0xA0, 201, 0, 2, 1, 2, 3, 4, 0, 0, 0, 4],                         // RR ok, 4 bytes of padding (legal at any position on the wire)
+        vec![0x40, 207, 0, 0],                                                 // unknown type, version 1
     ]
 }
+const KINDS: u64 = 10;
 
 const TAILS: u64 = 15;
 
@@ -147,14 +150,14 @@ fn apply_tail(v: &mut Vec<u8>, last_start: Option<usize>, tail: u64) {
 }
 
 pub fn c11(ctx: &mut Ctx) {
-    ctx.rule = "(a) all tile sequences of length 0..=d from an 8-kind menu (4 well-formed kinds, 4 kinds whose typed parse fails) x 15 tail variants (truncations, junk, last length field +-1, bare over-long header ...), plus sequences with a 262144-byte tile; (b) all byte strings of length 0..=12 (thorough: 16) whose length-field bytes range over {00,FF}x{00,01,02,03,FF} and whose other bytes over {00,80,81,C9,CB}; on each: Compound::parse is Ok iff the reference tiling is exact, and tiles+3 calls of next() are compared in lock-step with the model (tile index, done) whose items are Packet::parse of each tile; non-trivial = non-empty input whose first length field is in range, distinct by fingerprint".into();
+    ctx.rule = "(a) all tile sequences of length 0..=d from a 10-kind menu (5 well-formed kinds incl. a padded packet, 5 kinds whose parse fails) x 15 tail variants (truncations, junk, last length field +-1, bare over-long header ...), plus sequences with a 262144-byte tile; (b) all byte strings of length 0..=12 (thorough: 16) whose length-field bytes range over {00,FF}x{00,01,02,03,FF} and whose other bytes over {00,80,81,C9,CB} (first byte of each header slot: also A0); on each: Compound::parse is Ok iff the reference tiling is exact, and tiles+3 calls of next() are compared in lock-step with the model (tile index, done) whose items are Packet::parse of each tile; non-trivial = non-empty input whose first length field is in range, distinct by fingerprint".into();
     let depth = ctx.tier.pick(4u32, 5u32);
-    ctx.bound("(a) tile sequences", format!("length 0..={} over 8 kinds x 15 tails", depth));
+    ctx.bound("(a) tile sequences", format!("length 0..={} over 10 kinds x 15 tails", depth));
     ctx.bound("(b) strings", ctx.tier.pick("every length 0..=12", "every length 0..=12 fully, 13..=16 with the 4th header slot restricted"));
     let menu = tile_menu();
-    let nseq = seq_count(8, depth);
+    let nseq = seq_count(KINDS, depth);
     ctx.run_space("tile-sequences-x-tails", nseq * TAILS, |idx, l| {
-        let seq = seq_decode(8, idx / TAILS);
+        let seq = seq_decode(KINDS, idx / TAILS);
         let mut v = Vec::new();
         let mut last = None;
         for k in &seq {
@@ -165,10 +168,10 @@ pub fn c11(ctx: &mut Ctx) {
         c11_case(&v, l);
     });
     // the giant tile: sequences of length <= 2 over the menu plus one 262144-byte unknown packet
-    let nseq2 = seq_count(9, 2);
+    let nseq2 = seq_count(KINDS + 1, 2);
     ctx.run_space("tile-sequences-with-giant", nseq2 * TAILS, |idx, l| {
-        let seq = seq_decode(9, idx / TAILS);
-        if !seq.contains(&8) {
+        let seq = seq_decode(KINDS + 1, idx / TAILS);
+        if !seq.contains(&KINDS) {
             l.hit("(no giant in this sequence; covered above)");
             return;
         }
@@ -176,7 +179,7 @@ pub fn c11(ctx: &mut Ctx) {
         let mut last = None;
         for k in &seq {
             last = Some(v.len());
-            if *k == 8 {
+            if *k == KINDS {
                 let st = v.len();
                 v.resize(st + 262144, 0x5A);
                 v[st] = 0x80;
@@ -190,10 +193,42 @@ pub fn c11(ctx: &mut Ctx) {
         apply_tail(&mut v, last, idx % TAILS);
         c11_case(&v, l);
     });
+    // iterator call histories: every sequence of next / nth / take-count calls up to a depth, then collect / count /
+    // last, on the compound of every tile sequence of length 1..=3, against what plain next() calls give (which the
+    // spaces above compare with the model)
+    {
+        let hd = ctx.tier.pick(3u32, 4u32);
+        ctx.bound("iterator histories", format!("compounds of all tile sequences of length 1..=3 over the menu: all call sequences of length <= {} over {{next, nth(0), nth(1), nth(2), nth(7), take(2).count()}} x 4 endings", hd));
+        let n3 = seq_count(KINDS, 3) - 1;
+        ctx.run_space("iterator-histories", n3, |idx, l| {
+            let seq = seq_decode(KINDS, idx + 1);
+            let mut v = Vec::new();
+            for k in &seq {
+                v.extend_from_slice(&menu[*k as usize]);
+            }
+            l.evals += 1;
+            l.sample(|| format!("iterator histories on {}", hex_short(&v)));
+            let show = || hex_short(&v);
+            let r = guard::catch(|| -> Result<(), String> {
+                let c = Compound::parse(&v).map_err(|e| format!("{:?}", e))?;
+                let reference = super::common::iterator_reference(c, seq.len() + 3);
+                super::common::iterator_histories(l, "Compound", &|| Compound::parse(&v).expect("parsed a moment ago"), &reference, hd, &show);
+                Ok(())
+            });
+            match r {
+                Err(pi) => l.subject_panic("iterator-history", &pi, show),
+                Ok(Err(m)) => l.violation("iterator-history:setup", show, || m),
+                Ok(Ok(())) => {}
+            }
+        });
+        ctx.require_hit("iterator history agrees with repeated next()");
+    }
     // (b) all short strings over the restricted alphabets
     let hi = [0x00u8, 0xFF];
     let lo = [0x00u8, 0x01, 0x02, 0x03, 0xFF];
     let other = [0x00u8, 0x80, 0x81, 0xC9, 0xCB];
+    // first byte of each header slot: also the padding bit (a padded packet is legal at any position on the wire)
+    let first = [0x00u8, 0x80, 0x81, 0xC9, 0xCB, 0xA0];
     let max_len = ctx.tier.pick(12usize, 16usize);
     for n in 0..=max_len {
         let dims: Vec<u64> = (0..n)
@@ -210,6 +245,13 @@ pub fn c11(ctx: &mut Ctx) {
                         2
                     } else {
                         5
+                    }
+                }
+                0 => {
+                    if i >= 12 {
+                        2
+                    } else {
+                        first.len() as u64
                     }
                 }
                 _ => {
@@ -237,6 +279,7 @@ pub fn c11(ctx: &mut Ctx) {
                         }
                     } else {
                         match i % 4 {
+                            0 => first[x],
                             2 => hi[x],
                             3 => lo[x],
                             _ => other[x],
